@@ -102,3 +102,13 @@ Definition merge_run (mf : mergefn) (calls0 : N) (srcs : list (list entry)) : ou
 
 (* merge functions used by the correspondence *)
 Definition mf_concat : mergefn := fun _ _ vs => Done (concat vs).
+
+(* a commutative, associative merge function for the unstable sort algorithm: the bytes of
+   all values, sorted (a lone value with ascending bytes is returned unchanged) *)
+(* counting sort over the byte values 0..255 *)
+Definition byte_values : bytes := map N.of_nat (seq 0 256).
+Definition sort_bytes (l : bytes) : bytes := flat_map (fun b => filter (N.eqb b) l) byte_values.
+Definition mf_sortcat : mergefn := fun _ _ vs => Done (sort_bytes (concat vs)).
+(* fails on the j-th call (counting from 0), otherwise delegates *)
+Definition mf_fail_at (j : N) (mf : mergefn) : mergefn :=
+  fun ord k vs => if ord =? j then Fail EMerge else mf ord k vs.
